@@ -4,6 +4,7 @@ package c03
 import (
 	"encoding/json"
 	"fmt"
+	"math/big"
 	"strings"
 
 	"pault.ag/go/debian/version"
@@ -245,6 +246,26 @@ func Run(r *mc.Run) {
 	add("non-numeric-epoch", "a:1", "1a:1", ":1", "1.0:1", "~:1", "1 :1", "0x1:1", "1e1:1")
 	add("negative-epoch", "-1:1", "-7:1.0-1", "-2147483648:1")
 	add("oversized-epoch", "9223372036854775808:1", "18446744073709551616:1", "999999999999999999999999:1", "99999999999999999999:1.0-1")
+	// a systematic family of oversized epochs (>= 2^63): leading digit x number of digits, repeated digits, and the
+	// neighbours of 2^63 / 2^64 / 2^65 - a hand-rolled overflow test typically misses only part of this range
+	lim := new(big.Int).Lsh(big.NewInt(1), 63)
+	var huge []string
+	for nd := 19; nd <= 26; nd++ {
+		for _, d := range "123456789" {
+			huge = append(huge, string(d)+strings.Repeat("0", nd-1), strings.Repeat(string(d), nd), string(d)+strings.Repeat("9", nd-1))
+		}
+	}
+	for _, sh := range []uint{63, 64, 65, 66, 70, 80} {
+		b := new(big.Int).Lsh(big.NewInt(1), sh)
+		for _, delta := range []int64{-1, 0, 1, 1000} {
+			huge = append(huge, new(big.Int).Add(b, big.NewInt(delta)).String())
+		}
+	}
+	for _, h := range huge {
+		if v, ok := new(big.Int).SetString(h, 10); ok && v.Cmp(lim) >= 0 {
+			add("oversized-epoch", h+":1.0-1", h+":0")
+		}
+	}
 	add("nothing-after-colon", "1:", "0:", "7:", "1: ")
 	add("empty", "", " ", "\t\n")
 	// embedded whitespace: every inner position of a family of valid strings
